@@ -401,6 +401,33 @@ def getitemObj (x : Obj K) (idx : MArr Int) : Except Err (Obj K) :=
       | .error e => .error e
       | .ok rd => .ok ⟨r, some rd⟩
 
+/-- indexer.py:364-394: a (masked) Boolean ARRAY index over the first axis: the elements where the index is
+    True OR masked are selected, in order; those selected by a masked index element are masked -/
+def getitemBoolCode (x : MArr K) (b : MArr Bool) : Except Err (MArr K) :=
+  match x.shape, b.shape with
+  | len :: rest, [n] =>
+    if n != len then .error .index else
+    let pos := (List.range len).filter fun p => (b.get [p]).v || (b.get [p]).m
+    .ok ⟨pos.length :: rest, fun i =>
+      match i with
+      | j :: r =>
+        let p := pos.getD j 0
+        let c := x.get (p :: r)
+        ⟨c.v, c.m || (b.get [p]).m⟩
+      | [] => x.get []⟩
+  | _, _ => .error .index
+
+def getitemBoolObj (x : Obj K) (b : MArr Bool) : Except Err (Obj K) :=
+  match getitemBoolCode x.main b with
+  | .error e => .error e
+  | .ok r =>
+    match x.d with
+    | none => .ok ⟨r, none⟩
+    | some dx =>
+      match getitemBoolCode dx b with
+      | .error e => .error e
+      | .ok rd => .ok ⟨r, some rd⟩
+
 /-! ### stack, shrink / unshrink, pickling -/
 
 /-- shaper.py:236-399 for two arguments: broadcast, new leading axis; a missing derivative is a zero,
@@ -623,6 +650,7 @@ inductive Expr where
   | powG (ik ikm1 : Nat) (e : Expr)
   | mw (k : CmpKind) (ilim : Nat) (irep : Option Nat) (remask : Bool) (e : Expr)
   | clip (ilo ihi : Nat) (remask : Bool) (e : Expr)
+  | indexB (e : Expr) (bv : Nat)
   deriving Repr
 
 structure Env (K : Type) where
@@ -630,6 +658,7 @@ structure Env (K : Type) where
   idxs : List (MArr Int)
   ams : List (Arr Bool)
   consts : List K
+  bidxs : List (MArr Bool)
 
 def emptyObj : Obj K := ⟨⟨[], fun _ => ⟨P.one, true⟩⟩, none⟩
 
@@ -725,6 +754,10 @@ def eval (env : Env K) : Expr → Except Err (Obj K)
     match eval env e with
     | .error er => .error er
     | .ok x => .ok (clipObj P (env.consts.getD ilo P.zero) (env.consts.getD ihi P.zero) remask x)
+  | .indexB e bv =>
+    match eval env e with
+    | .error er => .error er
+    | .ok x => getitemBoolObj x (env.bidxs.getD bv ⟨[], fun _ => ⟨false, true⟩⟩)
 
 /-- a comparison at the root of a numeric expression -/
 def evalCmp (env : Env K) (op : COp) (e1 e2 : Expr) : Except Err (MArr Bool) :=
